@@ -11,6 +11,7 @@ theorem InvL.of_eq {s s' : State} (h : InvL s) (e1 : s'.log = s.log) (e2 : s'.ch
   · rw [e1, e2]; exact h.fifo
   · rw [e1, e3]; exact h.owners
   · rw [e1, e4]; exact h.semCount
+  · rw [e4]; exact h.semInit
 
 def neutral (op : Op) (res : Res) : Bool :=
   match op, res with
@@ -60,6 +61,7 @@ theorem finish_L_neutral {s : State} (me : Nat) (op : Op) (rest : List Op) (res 
     have := h.semCount k
     simp only [finish, State.setR, acqOf_snoc, relOf_snoc, isAcq, isRel]
     cases op <;> cases res <;> simp_all [neutral]
+  · exact h.semInit
 
 theorem blockIn_L {s : State} (me : Nat) (op : Op) (rest : List Op) (h : InvL s) : InvL (blockIn s me op rest).1 :=
   h.of_eq rfl rfl rfl rfl
@@ -85,6 +87,7 @@ theorem setCh_L {s : State} (c : Nat) (x : Chan) (h : InvL s) (hq : x.queue = (s
     · exact this
   · exact h.owners
   · exact h.semCount
+  · exact h.semInit
 
 theorem setMx_L {s : State} (c : Nat) (x : Mutex) (h : InvL s) (hq : x.hold = (s.mx c).hold) : InvL (s.setMx c x) := by
   constructor
@@ -96,6 +99,7 @@ theorem setMx_L {s : State} (c : Nat) (x : Mutex) (h : InvL s) (hq : x.hold = (s
     · rename_i e; subst e; rw [hq]; exact this
     · exact this
   · exact h.semCount
+  · exact h.semInit
 
 theorem setSm_L {s : State} (c : Nat) (x : Sem) (h : InvL s) (hq : x.count = (s.sm c).count) (hi : x.init = (s.sm c).init) :
     InvL (s.setSm c x) := by
@@ -107,6 +111,12 @@ theorem setSm_L {s : State} (c : Nat) (x : Sem) (h : InvL s) (hq : x.count = (s.
     simp only [State.setSm]
     split
     · rename_i e; subst e; rw [hq, hi]; exact this
+    · exact this
+  · intro c'
+    have := h.semInit c'
+    simp only [State.setSm]
+    split
+    · rename_i e; subst e; rw [hi]; exact this
     · exact this
 
 theorem cancelR_L {s : State} (t : Nat) (h : InvL s) : InvL (cancelR s t).1 := by
@@ -141,6 +151,8 @@ theorem send_L {s s1 : State} (me c v : Nat) (rest : List Op) (toks : List Nat) 
     simpa [finish, State.setR, State.setCh, ownersOf_snoc, ownStep] using this
   · intro k; have := h1.semCount k
     simpa [finish, State.setR, State.setCh, acqOf_snoc, relOf_snoc, isAcq, isRel] using this
+  · intro k; have := h1.semInit k
+    simpa [finish, State.setR, State.setCh] using this
 
 theorem recv_L {s : State} (me c v : Nat) (q : List Nat) (rest : List Op) (h : InvL s) (hq : (s.ch c).queue = v :: q) :
     InvL (finish (s.setCh c { s.ch c with queue := q }) me (.recv c) rest (.val v)).1 := by
@@ -156,6 +168,8 @@ theorem recv_L {s : State} (me c v : Nat) (q : List Nat) (rest : List Op) (h : I
     simpa [finish, State.setR, State.setCh, ownersOf_snoc, ownStep] using this
   · intro k; have := h.semCount k
     simpa [finish, State.setR, State.setCh, acqOf_snoc, relOf_snoc, isAcq, isRel] using this
+  · intro k; have := h.semInit k
+    simpa [finish, State.setR, State.setCh] using this
 
 theorem lock_L {s : State} (me m : Nat) (rest : List Op) (x : Mutex) (h : InvL s) (hx : x.hold = some me)
     (hq : (s.mx m).hold = none ∨ (s.mx m).hold = some me) :
@@ -173,6 +187,8 @@ theorem lock_L {s : State} (me m : Nat) (rest : List Op) (x : Mutex) (h : InvL s
       simp [e, e', this]
   · intro k; have := h.semCount k
     simpa [finish, State.setR, State.setMx, acqOf_snoc, relOf_snoc, isAcq, isRel] using this
+  · intro k; have := h.semInit k
+    simpa [finish, State.setR, State.setMx] using this
 
 theorem lock_same_L {s : State} (me m : Nat) (rest : List Op) (h : InvL s) (hq : (s.mx m).hold = some me) :
     InvL (finish s me (.lock m) rest .ok).1 := by
@@ -200,6 +216,8 @@ theorem unlock_L {s s1 : State} (me m : Nat) (rest : List Op) (toks : List Nat) 
       simp [e, e', this, w.mx]
   · intro k; have := h1.semCount k
     simpa [finish, State.setR, State.setMx, acqOf_snoc, relOf_snoc, isAcq, isRel] using this
+  · intro k; have := h1.semInit k
+    simpa [finish, State.setR, State.setMx] using this
 
 theorem unlock_other_L {s : State} (me m : Nat) (rest : List Op) (h : InvL s) (hq : (s.mx m).hold ≠ some me) :
     InvL (finish s me (.unlock m) rest .ok).1 := by
@@ -221,6 +239,8 @@ theorem unlock_other_L {s : State} (me m : Nat) (rest : List Op) (h : InvL s) (h
     · simp [e, this]
   · intro k; have := h.semCount k
     simpa [finish, State.setR, acqOf_snoc, relOf_snoc, isAcq, isRel] using this
+  · intro k; have := h.semInit k
+    simpa [finish, State.setR] using this
 
 theorem acquire_L {s : State} (me k : Nat) (rest : List Op) (h : InvL s) (hq : (s.sm k).count ≠ 0) :
     InvL (finish (s.setSm k { s.sm k with count := (s.sm k).count - 1 }) me (.acquire k) rest .ok).1 := by
@@ -236,6 +256,12 @@ theorem acquire_L {s : State} (me k : Nat) (rest : List Op) (h : InvL s) (hq : (
     · subst e; simp; omega
     · have e' : ¬ k' = k := fun x => e x.symm
       simp [e, e', this]
+  · intro k'
+    have := h.semInit k'
+    simp only [finish, State.setR, State.setSm]
+    split
+    · rename_i e; subst e; exact this
+    · exact this
 
 theorem release_L {s s1 : State} (me k : Nat) (rest : List Op) (toks : List Nat) (h : InvL s) (w : Woke s s1) :
     InvL (finish (s1.setSm k { s.sm k with count := (s.sm k).count + 1, tokens := toks }) me (.release k) rest .ok).1 := by
@@ -253,5 +279,12 @@ theorem release_L {s s1 : State} (me k : Nat) (rest : List Op) (toks : List Nat)
     · subst e; simp; omega
     · have e' : ¬ k' = k := fun x => e x.symm
       simp [e, e', this, w.sm]
+  · intro k'
+    have := h1.semInit k'
+    rw [w.sm] at this
+    simp only [finish, State.setR, State.setSm]
+    split
+    · rename_i e; subst e; exact this
+    · rw [w.sm]; exact this
 
 end Tbox.C18
